@@ -106,6 +106,12 @@ def dictSet {β} : SDict β → Text → β → SDict β
   | [], k, v => [(k, v)]
   | (k', v') :: rest, k, v => if k' == k then (k, v) :: rest else (k', v') :: dictSet rest k v
 
+/-- `d.update(e)` -/
+def dictUpdate {β} (d e : SDict β) : SDict β := e.foldl (fun acc kv => dictSet acc kv.1 kv.2) d
+
+/-- `k in d` -/
+def dictHas {β} (d : SDict β) (k : Text) : Bool := d.any (·.1 == k)
+
 /-- `d[k]`: KeyError when absent -/
 def dictGet {β} (d : SDict β) (k : Text) : Outcome β :=
   match d.find? (·.1 == k) with
@@ -304,6 +310,9 @@ inductive InfoVal
 def enumerateGo {α} : Int → List α → List (Int × α)
   | _, [] => []
   | i, x :: xs => (i, x) :: enumerateGo (i + 1) xs
+
+/-- `range(a, b)` -/
+def range (a b : Int) : List Int := (List.range (b - a).toNat).map (fun (i : Nat) => a + (i : Int))
 
 /-- `enumerate(xs)` -/
 def enumerate {α} (xs : List α) : List (Int × α) := enumerateGo 0 xs
